@@ -488,6 +488,7 @@ def brief(x):
 def main():
     native, repo, probes_file, status_file, start = sys.argv[1:6]
     start = int(start)
+    skip = set(json.loads(sys.argv[6])) if len(sys.argv) > 6 else set()
     sys.path[:0] = [native, os.path.join(repo, "src")]
     os.environ.setdefault("MPLBACKEND", "Agg")
     warnings.simplefilter("ignore")
@@ -510,6 +511,10 @@ def main():
     pos = 0
     for i in range(start, len(probes)):
         p = probes[i]
+        if p.get("entry", p.get("fn")) in skip:
+            # this entry point already killed the interpreter several times in this batch: the finding is made
+            say(f"E {i} " + json.dumps({"ret": "skipped", "val": None, "reports": []}))
+            continue
         say(f"B {i}")
         out = {}
         regions = ()
